@@ -2,6 +2,7 @@ import NibabelModel.Model.C10
 import NibabelModel.Model.C10_Mem
 import NibabelModel.Generated.C10Layouts
 import NibabelModel.Generated.C10Codes
+import NibabelModel.Generated.C10Own
 import Driver.Util
 /-! Line-protocol driver for C10: `C10 <op> <args...>` -> one observable line.
 
@@ -317,7 +318,9 @@ def runMem (c : ClsSpec) (K : Klass) : Mem → List MOp → List String → Stri
         | .fix h => raisesBytes c K.L (m.hdrE h) (m.hdrBytes h)
         | _ => false
       if over then "ERR:OverflowError" else
-      match m.step K op with
+      -- the step function of the ownership skeleton extracted from the source (= `Mem.step` when it passes
+      -- `OwnSkel.ok`: `gen_ownership_skeleton_ok`)
+      match Mem.stepBy K Gen.ownSkel m op with
       | none => "|".intercalate (("ERR" :: acc).reverse)
       | some m1 => runMem c K m1 ops (memDelta (memSnapshot m) (memSnapshot m1) :: acc)
 
